@@ -42,6 +42,25 @@ LBad == [id |-> "sllaLong", kind |-> "slla", units |-> 2, mac |-> "02:00:00:00:0
 U1 == [id |-> "unk", kind |-> "unknown", units |-> 1, type |-> 200]
 U2 == [id |-> "unkLong", kind |-> "unknown", units |-> 3, type |-> 14]
 
+\* ---- items whose counts and length bytes cross the boundaries of 8-bit arithmetic (31/32/33 units = 248/256/264
+\* bytes, 15/16/17/31/32 addresses, long domain lists, many prefixes); they are not part of the list product
+Servers(n) == [i \in 1..n |-> "2001:db8:53::" \o ToString(i)]
+RdnssN(n) == [id |-> "rdnss" \o ToString(n), kind |-> "rdnss", units |-> 1 + 2 * n, life |-> 1200, servers |-> Servers(n)]
+Domains(n) == [i \in 1..n |-> "d" \o ToString(i) \o ".example.net"]
+DnsslN(n) == [id |-> "dnssl" \o ToString(n), kind |-> "dnssl", units |-> 0, life |-> 300, domains |-> Domains(n)]
+UnkN(u) == [id |-> "unk" \o ToString(u), kind |-> "unknown", units |-> u, type |-> 200]
+PfxN(i) == [id |-> "pfx" \o ToString(i), kind |-> "prefix", units |-> 4, plen |-> 64, onlink |-> TRUE, auto |-> (i % 2 = 0),
+            valid |-> 1000 + i, pref |-> 500 + i, prefix |-> "2001:db8:" \o ToString(i) \o "::"]
+ManyPrefixes(n) == [i \in 1..n |-> PfxN(i)]
+BigItems == {RdnssN(n) : n \in {15, 16, 17, 31, 32, 40}} \cup {DnsslN(n) : n \in {12, 15, 16, 30}}
+            \cup {UnkN(u) : u \in {31, 32, 33, 64, 160}}
+            \cup {[id |-> "mtu33", kind |-> "mtu", units |-> 33, mtu |-> 1400],
+                  [id |-> "slla33", kind |-> "slla", units |-> 33, mac |-> "02:00:00:00:09:03"],
+                  [id |-> "pfx36", kind |-> "prefix", units |-> 36, plen |-> 64, onlink |-> TRUE, auto |-> TRUE,
+                   valid |-> 600, pref |-> 300, prefix |-> "2001:db8:3::"]}
+BigLists == {<<it>> : it \in BigItems} \cup {<<L1, it>> : it \in BigItems} \cup {<<it, M1, P1>> : it \in BigItems}
+            \cup {ManyPrefixes(9), ManyPrefixes(33), <<D1>> \o ManyPrefixes(17) \o <<S1>>}
+
 Items == {P1, P2, PBad, M1, MBad, D1, D2, DEven, DShort, S1, S2, SBad, R1, RBad, L1, LBad, U1, U2}
 Singletons == {"mtu", "rdnss", "dnssl", "slla"}
 
@@ -107,6 +126,7 @@ Rich == <<L1, P1, M1, D1, S1, R1, P2>>
 VARIABLE v
 SingleVectors == {[first |-> None, h |-> HeaderFor(s), opts |-> s] : s \in Lists(MaxLen)}
                  \cup {[first |-> None, h |-> Headers[i], opts |-> o] : i \in 1..Len(Headers), o \in {<<>>, Rich}}
+                 \cup {[first |-> None, h |-> Headers[1], opts |-> o] : o \in BigLists}
 \* macChange: the second advertisement comes from another Ethernet source (a router whose MAC changes)
 UpdateVectors == {[first |-> [h |-> Headers[2], opts |-> f], h |-> HeaderFor(s), opts |-> s, macChange |-> mc] :
                      f \in {<<>>, Rich}, s \in Lists(MaxSecond), mc \in BOOLEAN}
@@ -115,7 +135,7 @@ Next == UNCHANGED v
 Spec == Init /\ [][Next]_v
 
 \* the reference termination measure: the walk consumes the list item by item
-WalkTerminates == Len(v.opts) <= (IF Part = "single" THEN 7 ELSE MaxSecond)
+WalkTerminates == Len(v.opts) <= (IF Part = "single" THEN 40 ELSE MaxSecond)
 
 Vector ==
   LET firstRef == IF v.first = None THEN None
